@@ -10,7 +10,7 @@ EXPLANATION = ('Static rules on debounce, throttle, sample and the buffers: R-a 
                'incoming item (or a clone) ends up in at most one emission sink (delivered downstream, or parked in the pending cell that is '
                'later flushed), a take() of that cell cancelling the parked copy; R-b every buffer emission is guarded by !is_empty(); R-c '
                'complete() flushes the pending content before completing; R-d timer tasks move the pending content out with take(), never '
-               'clone it. Registration of the task handles is C02.U1. R-e debounce protocol (provenance dataflow): every item replaces the parked one, cancels the timer of its predecessor and arms a new one with the configured delay, whose handle is kept; R-f throttle protocol: an item goes out on the leading edge only together with opening a window, the item that went out is not also kept for the trailing edge, inside a window the newest item is parked, the window timer is armed with the selector\'s duration for that item and its handle kept. Does not decide '
+               'clone it. Registration of the task handles is C02.U1. R-g buffers never exceed the count limit: the shared BufferWithCountObserver releases and empties its buffer exactly when its length reaches count (same rule as C03.S10); R-e debounce protocol (provenance dataflow): every item replaces the parked one, cancels the timer of its predecessor and arms a new one with the configured delay, whose handle is kept; R-f throttle protocol: an item goes out on the leading edge only together with opening a window, the item that went out is not also kept for the trailing edge, inside a window the newest item is parked, the window timer is armed with the selector\'s duration for that item and its handle kept. Does not decide '
                'order under same-instant events.')
 TECHNIQUE = 'static analysis: linear item-flow rules and path-sensitive provenance dataflow (protocol of debounce/throttle) over MIR event graphs (custom rustc_private driver)'
 ASSUMPTIONS = ['bool configuration fields that next() never writes have one value along a path (correlated branches are pruned)']
@@ -63,7 +63,7 @@ CONTROLS = ['R-a|<verif_controls::DoubleEdge<O, Item> as Observer>::next', 'R-d|
 
 
 def check(cx):
-    return ra(cx) + ([] if cx.control else rb(cx) + rc(cx)) + rd(cx) + re_(cx) + rf(cx)
+    return ra(cx) + ([] if cx.control else rb(cx) + rc(cx) + rg(cx)) + rd(cx) + re_(cx) + rf(cx)
 
 
 def _is_item(e):
@@ -379,3 +379,12 @@ def rf(cx):
     if n < 1:
         res.append(Finding(ID, 'R-f', 'floor', False, 'ThrottleObserver not found'))
     return res
+
+
+def rg(cx):
+    """count limit of buffer_with_count(_and_time): the buffer is released exactly when it holds `count` items (same rule as C03.S10)"""
+    from . import c03
+    out = [Finding(ID, 'R-g', f.key, f.ok, f.msg, f.loc, f.witness) for f in c03.s10(cx) if 'BufferWithCountObserver' in f.key]
+    if not out:
+        out.append(Finding(ID, 'R-g', 'floor', False, 'BufferWithCountObserver not found'))
+    return out
